@@ -8,4 +8,5 @@ CONSTANTS
 INVARIANT PassesEqualTransducer
 INVARIANT UnescEscIsIdentity
 INVARIANT FormatRefines
+INVARIANT UsAgreesWithMs
 CHECK_DEADLOCK FALSE
